@@ -3,7 +3,8 @@
    integer status and every JSON body (or None = body is not JSON); none is guarded except where
    the property text itself restricts to spec-shaped errors (spec_body / spec_error). *)
 From Coq Require Import List String Ascii ZArith Bool.
-From AC Require Import Base.Json Model.GetData Proofs.GetDataP.
+From AC Require Import Base.Json Model.GetData Proofs.GetDataP Proofs.GetDataOpP.
+From AC Require Py.Ann Py.Pydantic Model.Results Proofs.ResultsRunP Proofs.ResultsObjP Gql.Schema Gql.Exec Properties.C01.
 Import ListNotations.
 Local Open Scope string_scope.
 
@@ -105,6 +106,45 @@ Theorem C12_method_raises : forall (V : Type) (validate : json -> option V) st b
   client_method validate st b = MRaise o <-> get_data st b = o /\ forall d, o <> OData d.
 Proof. exact method_raises. Qed.
 Print Assumptions C12_method_raises.
+
+(* ---- composed with C01 (classes generated by Model/Results.v, sub-language op_ok): a 2xx response
+   whose data member conforms to the operation (Exec.conf_op) and that reports no errors is RETURNED by the
+   generated method, as the validated result model of exactly that data; nothing is returned when the
+   server reported errors or the status is not 2xx, whatever the validation function ---- *)
+Theorem C12_method_returns_conformant_data : forall C S frs fuel kind name sels root own pub' cls g cov fc d n st kv,
+  Results.root_type_name S kind = Results.Ok root ->
+  Results.op_parse fuel C S frs kind name [] sels = Results.Ok (own, pub', false) ->
+  Results.all_classes fuel C S frs (Results.DOp kind name [] sels) = Results.Ok cls ->
+  ResultsObjP.op_ok g cov C S frs root sels = true -> ResultsRunP.no_basemodel own = true ->
+  n >= fuel + 2 ->
+  (200 <= st <= 299)%Z -> jlookup "data" kv = Some d ->
+  (jlookup "errors" kv = None \/ jlookup "errors" kv = Some (JArr [])) ->
+  Exec.conf_op fc S frs root sels d = true ->
+  client_method (result_validate n cls (Results.schema_enums S) (Results.pascal_s name)) st (Some (JObj kv))
+  = MReturn d.
+Proof. exact method_returns_conformant. Qed.
+Print Assumptions C12_method_returns_conformant_data.
+
+Theorem C12_method_returns_nothing_with_errors : forall (V : Type) (validate : json -> option V) st kv e l v,
+  jlookup "errors" kv = Some (JArr (e :: l)) ->
+  client_method validate st (Some (JObj kv)) <> MReturn v.
+Proof. exact method_returns_nothing_with_errors. Qed.
+Print Assumptions C12_method_returns_nothing_with_errors.
+
+Theorem C12_method_returns_nothing_non2xx : forall (V : Type) (validate : json -> option V) st b v,
+  (st < 200 \/ 299 < st)%Z -> client_method validate st b <> MReturn v.
+Proof. exact method_returns_nothing_non2xx. Qed.
+Print Assumptions C12_method_returns_nothing_non2xx.
+
+(* the hypotheses are met by C01's non-trivial operation GetPeople (nested, aliased, abstract, enum, lists) *)
+Example C12_method_conformant_satisfiable :
+  exists cls,
+    Results.all_classes 10 C01.C0 C01.SX C01.frsX (Results.DOp "query" "GetPeople" [] C01.selsX) = Results.Ok cls /\
+    client_method (result_validate 12 cls (Results.schema_enums C01.SX) (Results.pascal_s "GetPeople")) 200
+      (Some (JObj [("data", C01.jX); ("extensions", JObj [])])) = MReturn C01.jX /\
+    client_method (result_validate 12 cls (Results.schema_enums C01.SX) (Results.pascal_s "GetPeople")) 200
+      (Some (JObj [("data", JObj [("people", JNull)])])) = MValidationError.
+Proof. eexists. split; [vm_compute; reflexivity|]. vm_compute. split; reflexivity. Qed.
 
 (* str(exception): the multi-error's text lists the message of every error of the response, in order,
    joined by "; " (None when some message is not a string: str() raises TypeError); the HTTP error's text
